@@ -435,7 +435,7 @@ class Harness(object):
             if t[0] == "reject":
                 if stats is not None:
                     stats.dropped["%s: not accepted (NotImplementedError)" % self.name] += 1
-                continue
+                break
             r = self.check(e, env, stats)
             if r is None:
                 continue
